@@ -227,6 +227,16 @@ def gen(prop, seed, tier):
         add("reply/whole", chunks=[(0, part(rp))])
         add("reply/two-chunks", chunks=[(0, part(rp)[:1]), (20, part(rp)[1:])])
         add("reply/trailing", chunks=[(0, part(rp) + b"trailing")])
+    # (1b) the reply body arrives in several segments (the module reads in between): the verdict is that of
+    # the whole reply - in particular when a LATER segment begins with "OK" and the reply does not
+    for body in [b"NOOK", b"NO user unknown, OK?", b"XXOK", b"NO OK", b"NOOK successfully authenticated", b"OK", b"OKNO", b"OK fine", b"O" + b"K" * 3]:
+        cuts = [k for k in range(1, len(body))]
+        if len(cuts) > 6:
+            cuts = [k for k in cuts if body[k:k + 2] == b"OK" or k in (1, 2, len(body) - 1)]
+        for k in cuts:
+            add("reply/body-split", chunks=[(0, part(body)[:2]), (40, body[:k]), (60, body[k:])])
+    add("reply/body-split", chunks=[(0, part(b"XXOK")[:2]), (30, b"X"), (40, b"X"), (40, b"OK")])
+    add("reply/body-split", chunks=[(0, part(b"NO!OK")[:3]), (40, b"O"), (40, b"!"), (40, b"OK")])
     # (2) replies cut at every byte (server closes after the prefix)
     for rp in [b"OK", b"NO", b"OK successfully authenticated"]:
         w = part(rp)
